@@ -1435,3 +1435,113 @@ fn c08_latest_checkpoint_for_compile() {
     }
     core::mem::forget(r);
 }
+
+// ---------------------------------------------------------------------------------------------------------
+// C09 / C02: the auto-compaction planner. compaction_cut_points_v1 is answered by a stub with two cut points (latest first)
+// whose already-checkpointed flags are symbolic (carried to the stub through the thread-id context pointer);
+// append_job_spawned is a stub that fails when reached. Shapes: dry run / real run with nothing new to do.
+// Obligation: the plan is exactly the first clamp(max_new,1,32) not-yet-checkpointed cut points in latest-first order;
+// a dry run, and a run with nothing to plan, append nothing (idempotence of a repeat).
+// ---------------------------------------------------------------------------------------------------------
+#[repr(C)]
+struct PlanCtx {
+    already0: bool,
+    already1: bool,
+}
+fn plan_ctx_id(ctx: &PlanCtx) -> &str {
+    unsafe { core::str::from_utf8_unchecked(core::slice::from_raw_parts(ctx as *const PlanCtx as *const u8, 0)) }
+}
+fn stub_cut_points_two(
+    _this: &ContinuityStore,
+    id: &str,
+    req: CompactionCutPointsV1Request,
+) -> Result<CompactionCutPointsV1Response, String> {
+    let ctx = unsafe { &*(id.as_ptr() as *const PlanCtx) };
+    assert!(req.limit == Some(32), "planner must look at the documented 32 latest cut points");
+    let mut v = Vec::with_capacity(2);
+    v.push(CompactionCutPointV1 { target_message_ordinal: 4, to_seq: 9, to_message_id: lit("m4"), already_checkpointed: ctx.already0, latest_checkpoint_id: None });
+    v.push(CompactionCutPointV1 { target_message_ordinal: 2, to_seq: 5, to_message_id: lit("m2"), already_checkpointed: ctx.already1, latest_checkpoint_id: None });
+    Ok(CompactionCutPointsV1Response {
+        thread_id: String::new(),
+        stride_messages: req.stride_messages.unwrap_or(0),
+        message_count: 5,
+        cut_rule_id: String::new(),
+        cut_points: v,
+    })
+}
+fn stub_append_job_spawned_unreachable(
+    _this: &ContinuityStore,
+    _id: &str,
+    _job_id: &str,
+    _job_kind: &str,
+    details: Option<serde_json::Value>,
+    _actor: String,
+    _origin: String,
+) -> Result<String, String> {
+    core::mem::forget(details);
+    assert!(false, "a dry run / a run with nothing new to do appended a job frame");
+    Ok(String::new())
+}
+
+// (the job-details JSON is not the subject: serde_json::to_value -> Null keeps the spawn path, which symex explores
+// because `planned.is_empty()` is not folded, affordable)
+fn stub_to_value_null<T: serde::Serialize>(_v: T) -> Result<serde_json::Value, serde_json::Error> {
+    Ok(serde_json::Value::Null)
+}
+macro_rules! c09_auto_plan {
+    ($name:ident, $dry:expr, $all_done:expr) => {
+        #[kani::proof]
+        #[kani::unwind(6)]
+        #[kani::stub(std::fmt::format, stub_fmt_format)]
+        #[kani::stub(std::hash::RandomState::new, stub_random_state_new)]
+        #[kani::stub(uuid::Uuid::new_v4, stub_uuid_v4)]
+        #[kani::stub(alloc::string::ToString::to_string, stub_to_string_empty)]
+        #[kani::stub(ContinuityStore::compaction_cut_points_v1, stub_cut_points_two)]
+        #[kani::stub(ContinuityStore::append_job_spawned, stub_append_job_spawned_unreachable)]
+        #[kani::stub(serde_json::to_value, stub_to_value_null)]
+        fn $name() {
+            let ctx = PlanCtx {
+                already0: if $all_done { true } else { kani::any() },
+                already1: if $all_done { true } else { kani::any() },
+            };
+            let stride: u64 = kani::any();
+            let max_raw: u32 = kani::any();
+            let max_new: Option<u32> = if kani::any() { Some(max_raw) } else { None };
+            let store = kani_store();
+            let r = store.compaction_auto_spawn_job_v1(
+                plan_ctx_id(&ctx),
+                CompactionAutoV1Request {
+                    stride_messages: Some(stride),
+                    max_new_checkpoints: max_new,
+                    dry_run: if $dry { Some(true) } else { None },
+                    actor_id: lit("u"),
+                    origin: lit("o"),
+                },
+            );
+            match &r {
+                Err(_) => assert!(stride == 0, "auto-compaction refused although the stride is valid"),
+                Ok(resp) => {
+                    assert!(stride != 0, "stride 0 accepted");
+                    assert!(resp.job_id.is_none(), "a job id was handed out for a no-op");
+                    let cap = match max_new { None => 1u64, Some(m) => if m < 1 { 1 } else if m > 32 { 32 } else { m as u64 } };
+                    // reference plan
+                    let mut want: [u64; 2] = [0, 0];
+                    let mut nw = 0usize;
+                    if !ctx.already0 && (nw as u64) < cap { want[nw] = 4; nw += 1; }
+                    if !ctx.already1 && (nw as u64) < cap { want[nw] = 2; nw += 1; }
+                    assert!(resp.planned.len() == nw, "plan does not hold the first max_new not-yet-checkpointed cut points");
+                    let mut j = 0;
+                    while j < nw {
+                        assert!(resp.planned[j].target_message_ordinal == want[j], "plan order / content differs from latest-first not-yet-checkpointed cut points");
+                        j += 1;
+                    }
+                    kani::cover!(nw == 2 || $all_done, "two cut points planned (not in the nothing-new shape)");
+                    kani::cover!(nw == 0 || nw == 1, "plan limited or partly done");
+                }
+            }
+            core::mem::forget(r);
+        }
+    };
+}
+c09_auto_plan!(c09_auto_plan_dry_run, true, false);
+// (does not finish in 600-800 s: without a constant dry_run flag symex explores the spawn path -- json! job details) c09_auto_plan!(c09_auto_plan_nothing_new, false, true);
